@@ -240,7 +240,7 @@ func pipelineCases(part, format, name, doc string, extra map[string]string, size
 			// special shapes only
 			continue
 		}
-		if m.flagsOff && strings.HasPrefix(name, "G:") {
+		if m.flagsOff && (strings.HasPrefix(name, "G:") || strings.HasPrefix(name, "sdef/") && !thoroughTier) {
 			continue
 		}
 		langs := programmingLanguagesBlock
@@ -508,8 +508,33 @@ func main() {
 		reachable := map[string]bool{}
 		var unreachable []string
 		var values, unbuildable []string
-		for _, o := range h.p.single(&Case{Part: "d-ir", Entry: "probe", ID: "d/probe", Req: Req{Op: "probe"}}) {
+		const probeChunks = 48
+		var probes []*Case
+		for k := 0; k < probeChunks; k++ {
+			probes = append(probes, &Case{Part: "d-ir", Entry: "probe", ID: fmt.Sprintf("d/probe %d", k), Req: Req{Op: "probe", Stage: fmt.Sprintf("%d/%d", k, probeChunks)}})
+		}
+		var probeMu sync.Mutex
+		var probeOuts []Out
+		if done := h.p.run(probes, time.Time{}, func(_ *Case, outs []Out, _ string) {
+			probeMu.Lock()
+			probeOuts = append(probeOuts, outs...)
+			probeMu.Unlock()
+		}); done != len(probes) {
+			cleanup()
+			vx.Fatalf("probe incomplete")
+		}
+		seenValue := map[string]bool{}
+		sort.SliceStable(probeOuts, func(i, j int) bool { return probeOuts[i].Lang < probeOuts[j].Lang })
+		for _, o := range probeOuts {
+			if o.St == "fatal" || o.St == "hang" {
+				// a document that kills the parser is part (a)'s business; the probe just loses a chunk
+				continue
+			}
 			if o.St == "value" {
+				if seenValue[o.Lang] {
+					continue
+				}
+				seenValue[o.Lang] = true
 				if strings.HasPrefix(o.Lang, "unbuildable:") {
 					unbuildable = append(unbuildable, o.Lang)
 				} else {
